@@ -261,7 +261,7 @@ func init() {
 		RealStub: map[string]string{"verify.RawTdxQuote with CheckRevocations": "real", "crypto/x509 CRL parsing": "real (trusted base)", "Intel CA (CRL issuer) and PCS CRL endpoints": "stub (world)"},
 		Runs: func(tier string) int {
 			if tier == "thorough" {
-				return 1200
+				return 4000
 			}
 			return 96
 		},
